@@ -198,6 +198,7 @@ class Ctl(Harness):
             add("fixed1", 3, 1, cb="partial-pos")
             add("linub", 3, 1, cb="partial-kw")
             add("nlub", 4, 1, npt=2, force="soc", con_const=1.0)
+            add("nlub", 4, 1, npt=2, force="soc", con_const=1.0, cb="pos")
             add("unc1", 6, 3, fun_seq=[5.0, 4.0, 6.0, 3.5, 3.75, 3.25], npt=2)
             add("box1", 6, 3, fun_seq=[5.0, 4.0, 6.0, 3.5, 3.75, 3.25], npt=2, cb="pos")
             add("nlub", 6, 3, fun_seq=[5.0, 4.0, 6.0, 3.5, 3.75, 3.25], npt=2, con_const=-1.0)
@@ -242,7 +243,7 @@ class Ctl(Harness):
             if d.get("repeat") or d.get("nested"):
                 return prop == "C11"
             if d.get("force"):
-                return prop in ("C12", "C01", "C18", "C05", "C09")
+                return prop in ("C12", "C01", "C18", "C05", "C09", "C20") and (d["cb"] == "none" or prop in ("C09", "C20"))
             if d.get("fun_seq"):
                 return prop in ("C07", "C18", "C05", "C12", "C08", "C02", "C03", "C20", "C09", "C06")
             if prop in ("C11", "C18", "C12"):
@@ -571,7 +572,17 @@ class Ctl(Harness):
         TR = M.framework.TrustRegion
         orig_step = TR.get_trust_region_step
 
+        orig_geo = TR.get_geometry_step
+
+        def geo_wrapper(self_, k_new, options_):
+            r = orig_geo(self_, k_new, options_)
+            log.append(dict(t="site", site="geo", depth=cur["depth"]))
+            return r
+
+        M.patch(TR, "get_geometry_step", geo_wrapper)
+
         def step_wrapper(self_, options_):
+            log.append(dict(t="site", site="tr", depth=cur["depth"]))
             monitors["iters"].append(dict(radius=self_.radius, resolution=self_.resolution,
                                           penalty=self_.penalty, rhoend=options_["radius_final"],
                                           best=self_.best_index))
@@ -584,6 +595,7 @@ class Ctl(Harness):
             r = orig_soc(self_, step_, options_)
             if any(flt(v) != 0.0 for v in r):
                 flags["soc"] = True
+                log.append(dict(t="site", site="soc", depth=cur["depth"]))
             return r
 
         flags = {}
@@ -646,7 +658,8 @@ class Ctl(Harness):
             for obj, nm, orig in ((Pb, "__call__", orig_call), (TR, "get_trust_region_step", orig_step),
                                   (TR, "enhance_resolution", orig_enh), (M.main, "_build_result", orig_build),
                                   (TR, "__init__", orig_tr_init), (MDL, "update_interpolation", orig_upd),
-                                  (TR, "get_second_order_correction_step", orig_soc)):
+                                  (TR, "get_second_order_correction_step", orig_soc),
+                                  (TR, "get_geometry_step", orig_geo)):
                 setattr(obj, nm, orig)
         out["soc_taken"] = bool(flags.get("soc"))
         if frame.get("tr") is not None:
@@ -888,6 +901,11 @@ class Ctl(Harness):
                   s=f"{sig}:st={st}")
                 if st in (1, 3, 4):
                     goals.append("stop_at_eval_%d" % min(N, 4))
+                    site = "init"
+                    for r_ in o["log"]:
+                        if r_["t"] == "site":
+                            site = r_["site"]
+                    goals.append("stop_site_" + site)
                     C("C09", "nfev_is_index_of_triggering_evaluation", res.nfev == N,
                       s=f"{sig}:fun={'y' if has_fun else 'none'}")
             else:
@@ -1007,6 +1025,8 @@ class Ctl(Harness):
             g += ["status_0"]
         if prop in ("C09", "C07"):
             g += ["callback_stopped", "status_1", "status_4"]
+        if prop == "C09":
+            g += ["stop_site_init", "stop_site_tr", "stop_site_soc", "stop_site_geo"]
         if prop == "C20":
             g += ["callback_stopped"]
         if prop == "C11":
